@@ -19,9 +19,9 @@ from vf.gen import features as FE
 LEVEL = "model_checking"
 
 OPS = ["+", "-", "*", "/", "^", "AND", "OR"]
-VALS_INT = [(2, 3, 5, 7), (-2, 3, -5, 7), (0, 1, 0, 1), (1, 0, 2, -1), (3, 3, 3, 3)]
-VAL_REAL = (0.5, 2, 4, -3)
-ATOMS = ["A", "B", "C", "D"]
+VALS_INT = [(2, 3, 5, 7, 4), (-2, 3, -5, 7, -3), (0, 1, 0, 1, 1), (1, 0, 2, -1, 2), (3, 3, 3, 3, 3)]
+VAL_REAL = (0.5, 2, 4, -3, 1.5)
+ATOMS = ["A", "B", "C", "D", "E"]
 
 
 def sentences(k, ops=OPS):
@@ -124,7 +124,7 @@ def program_assign(expr, vals_list, target="Z"):
     lines = []
     n = 10
     for i, vals in enumerate(vals_list):
-        lines.append(f"{n} A={vals[0]}:B={vals[1]}:C={vals[2]}:D={vals[3]}")
+        lines.append(f"{n} A={vals[0]}:B={vals[1]}:C={vals[2]}:D={vals[3]}:E={vals[4]}")
         lines.append(f"{n + 5} {target}{i + 1}={expr}")
         n += 10
     return "\n".join(lines) + "\n"
